@@ -162,7 +162,7 @@ _SAFE_METHODS = {
     list: {"copy", "index", "count", "append", "extend", "insert", "pop", "reverse", "sort"},
     tuple: {"index", "count"},
     dict: {"copy", "get", "items", "keys", "values", "update", "setdefault", "pop"},
-    set: {"copy", "union", "intersection", "difference", "add", "issubset", "issuperset"},
+    set: {"copy", "union", "intersection", "difference", "add", "update", "discard", "issubset", "issuperset"},
     frozenset: {"union", "intersection", "difference", "issubset", "issuperset"},
     int: {"bit_length"},
     float: {"is_integer"},
